@@ -65,6 +65,8 @@ def explore(fn, init, step, edge=None, start_block=None, start_index=0,
                 if cur is None:
                     continue
         cond = fn.node(bd.get('cond')) if bd.get('cond') is not None else None
+        if bd.get('noreturn'):
+            continue            # abort()/__assert_fail(): the path ends here
         for idx, s in enumerate(bd['s']):
             if s is None:
                 continue
@@ -132,3 +134,216 @@ def normalise_cond(fn, cond, polarity):
             continue
         break
     return n, polarity
+
+
+# ---------------------------------------------------------------------------
+# Correlated simple conditions: `if (x != NULL) a(); ... if (x != NULL) b();`
+# Facts ('eq'|'ne', <lvalue text>, <const>) are learned on branch edges and
+# from the if-statements that enclose the starting point, killed when the
+# lvalue is assigned, and make contradicting edges infeasible.
+
+class CondTracker(object):
+    def __init__(self, fn, extra=()):
+        self.fn = fn
+        self._tracked = None
+        self.extra = set(extra)
+
+    def tracked(self):
+        """lvalues worth remembering: tested by at least two branch conditions
+        of the function (the only way two branches can be correlated)"""
+        if self._tracked is None:
+            fn = self.fn
+            cnt = {}
+            for n in fn.all_nodes():
+                conds = []
+                if n['k'] in ('if', 'while', 'do', 'cond'):
+                    ks = fn.kids(n)
+                    if ks:
+                        conds.append(ks[-1] if n['k'] == 'do' else ks[0])
+                elif n['k'] == 'for':
+                    parts = n.get('parts', [])
+                    if len(parts) == 4 and parts[1] >= 0:
+                        conds.append(fn.node(parts[1]))
+                for c in conds:
+                    seen = set()
+                    stack = [c]
+                    while stack:
+                        x = stack.pop()
+                        if x is None:
+                            continue
+                        while x is not None and x['k'] == 'cast':
+                            x = fn.kid(x, 0)
+                        if x is None:
+                            continue
+                        if x['k'] == 'bin' and x.get('op') in ('&&', '||'):
+                            stack.extend(fn.kids(x))
+                            continue
+                        if x['k'] == 'un' and x.get('op') == '!':
+                            stack.append(fn.kid(x, 0))
+                            continue
+                        imp = self.implied(x, True)
+                        if imp is not None:
+                            seen.add(imp[1])
+                    for lv in seen:
+                        cnt[lv] = cnt.get(lv, 0) + 1
+            # flag variables: locals assigned a constant somewhere and tested
+            flags = set()
+            for n in fn.all_nodes():
+                if n['k'] == 'bin' and n.get('op') == '=':
+                    l = fn.kid(n, 0)
+                    r = fn.kid(n, 1)
+                    while r is not None and r['k'] == 'cast':
+                        r = fn.kid(r, 0)
+                    if l is not None and l['k'] == 'ref' and l.get('dk') == 'local' and \
+                            r is not None and 'v' in r and l['name'] in cnt:
+                        flags.add(l['name'])
+            self._tracked = set(lv for lv, c in cnt.items() if c >= 2) | flags | self.extra
+        return self._tracked
+
+    def _lv(self, n):
+        fn = self.fn
+        while n is not None and (n['k'] == 'cast' or
+                                 (n['k'] == 'bin' and n.get('op') == '=')):
+            # `(v = f()) == NULL` tests v
+            n = fn.kid(n, 0)
+        if n is None:
+            return None
+        if n['k'] == 'ref' and n.get('dk') in ('local', 'param'):
+            return n['name']
+        if n['k'] == 'member':
+            root = n
+            depth = 0
+            while root is not None and root['k'] in ('member', 'cast') and depth < 6:
+                root = fn.kid(root, 0)
+                depth += 1
+            if root is not None and root['k'] == 'ref' and root.get('dk') in ('local', 'param'):
+                return fn.show(n)
+        return None
+
+    def implied(self, cond, polarity):
+        """fact implied by `cond` evaluating to `polarity`, or None"""
+        fn = self.fn
+        c, pol = normalise_cond(fn, cond, polarity)
+        if c is None:
+            return None
+        if c['k'] == 'bin' and c.get('op') in ('==', '!='):
+            a, b = fn.kid(c, 0), fn.kid(c, 1)
+            for x, y in ((a, b), (b, a)):
+                lv = self._lv(x)
+                yy = y
+                while yy is not None and yy['k'] == 'cast':
+                    yy = fn.kid(yy, 0)
+                if lv is not None and yy is not None and 'v' in yy and yy['k'] in ('int', 'char', 'ref', 'un', 'bin'):
+                    eq = (c['op'] == '==') == pol
+                    return ('eq' if eq else 'ne', lv, yy['v'])
+            return None
+        lv = self._lv(c)
+        if lv is not None:
+            return ('ne' if pol else 'eq', lv, 0)
+        return None
+
+    @staticmethod
+    def consistent(facts, new):
+        kind, lv, c = new
+        for f in facts:
+            if not isinstance(f, tuple) or len(f) != 3 or f[1] != lv:
+                continue
+            if f[0] == 'eq' and kind == 'eq' and f[2] != c:
+                return False
+            if f[0] == 'eq' and kind == 'ne' and f[2] == c:
+                return False
+            if f[0] == 'ne' and kind == 'eq' and f[2] == c:
+                return False
+        return True
+
+    def on_edge(self, term, cond, idx, facts):
+        """returns facts refined by the branch, or None if infeasible"""
+        pol = branch_polarity(self.fn, term, idx)
+        if pol is None or cond is None:
+            return facts
+        new = self.implied(cond, pol)
+        if new is None:
+            return facts
+        if not self.consistent(facts, new):
+            return None
+        if new[1] not in self.tracked():
+            return facts
+        return frozenset(facts) | {new}
+
+    def on_step(self, n, facts):
+        """kill facts about lvalues that n modifies"""
+        fn = self.fn
+        tgt = None
+        if n['k'] == 'bin' and n.get('op', '').endswith('=') and n['op'] not in ('==', '!=', '<=', '>='):
+            tgt = fn.kid(n, 0)
+        elif n['k'] == 'un' and n.get('op') in ('&', '++', '--', 'post++', 'post--'):
+            tgt = fn.kid(n, 0)
+        elif n['k'] == 'decl':
+            name = n.get('name')
+            if any(isinstance(f, tuple) and len(f) == 3 and f[1] == name for f in facts):
+                return frozenset(f for f in facts if not (isinstance(f, tuple) and len(f) == 3 and f[1] == name))
+            return facts
+        if tgt is None:
+            return facts
+        lv = self._lv(tgt) if tgt['k'] != 'bin' else None
+        if lv is None:
+            return facts
+        learned = None
+        if n['k'] == 'bin' and n.get('op') == '=':
+            r = fn.kid(n, 1)
+            while r is not None and r['k'] == 'cast':
+                r = fn.kid(r, 0)
+            if r is not None and 'v' in r and r['k'] in ('int', 'char', 'ref', 'un', 'bin', 'cast'):
+                learned = ('eq', lv, r['v'])
+        if learned is not None and lv not in self.tracked():
+            learned = None
+        if learned is not None:
+            keep = [f for f in facts if not (isinstance(f, tuple) and len(f) == 3 and
+                                             f[0] in ('eq', 'ne') and
+                                             (f[1] == lv or f[1].startswith(lv + '->') or
+                                              f[1].startswith(lv + '.')))]
+            keep.append(learned)
+            return frozenset(keep)
+        keep = []
+        changed = False
+        for f in facts:
+            if isinstance(f, tuple) and len(f) == 3 and f[0] in ('eq', 'ne') and \
+                    (f[1] == lv or f[1].startswith(lv + '->') or f[1].startswith(lv + '.')):
+                changed = True
+                continue
+            keep.append(f)
+        return frozenset(keep) if changed else facts
+
+    def enclosing_facts(self, node):
+        """facts implied by the if-statements whose branch contains node"""
+        fn = self.fn
+        out = set()
+        child = node
+        for a in fn.ancestors(node):
+            if a['k'] == 'if':
+                ks = fn.kids(a)
+                if len(ks) >= 2 and child is not ks[0]:
+                    pol = child is ks[1]
+                    cond = ks[0]
+                    # only a plain condition or the operands of a && chain
+                    # (then-branch) / || chain (else-branch) are implied
+                    stack = [cond]
+                    while stack:
+                        c = stack.pop()
+                        cc = c
+                        while cc is not None and cc['k'] == 'cast':
+                            cc = fn.kid(cc, 0)
+                        if cc is not None and cc['k'] == 'bin' and cc.get('op') == '&&' and pol:
+                            stack.extend(fn.kids(cc))
+                            continue
+                        if cc is not None and cc['k'] == 'bin' and cc.get('op') == '||' and not pol:
+                            stack.extend(fn.kids(cc))
+                            continue
+                        if cc is not None and cc['k'] == 'bin' and cc.get('op') in ('&&', '||'):
+                            continue
+                        new = self.implied(cc, pol)
+                        if new is not None and self.consistent(out, new) and \
+                                new[1] in self.tracked():
+                            out.add(new)
+            child = a
+        return out
